@@ -24,7 +24,7 @@ import random
 
 import numpy as np
 
-from .. import core, findlib as fl, gen_find_c01 as g, gen_names_c01 as gn
+from .. import core, findlib as fl, gen_find_c01 as g, gen_names_c01 as gn, gen_cells_c01 as gc
 
 RULE = ("periodic structures from findlib.planted_structure: 0-3 planted rigid copies (per-atom perturbation <= atol/8) of "
         "11 patterns (1-5 atoms; asymmetric, symmetric CH3-like, planar, collinear, chiral) in orthorhombic / "
@@ -47,6 +47,10 @@ RULE = ("periodic structures from findlib.planted_structure: 0-3 planted rigid c
         "grid have SPECIES NAMES beyond the one/two-letter symbols (gen_names_c01: united-atom / coarse-grained names with explicit "
         "masses - CH2/CH3, Bead1/Bead10, HW1/HW2 -, the mass table's Uut/Uuq/Uup/Uuh/Uuo, names differing in case or by a suffix), "
         "renamed injectively in structure and pattern, plus rigid copies with ONE atom of a sibling (look-alike) species. "
+        "Cells with SMALL components (gen_cells_c01): tilts / off-diagonal terms log-spread over 3e-6 … 0.2 A (lower- or upper-triangular, "
+        "from lengths + angles 90 +/- 1e-4 … 2 deg, an orthorhombic cell turned by 1e-6 … 0.02 rad, an ordinary tilt next to small ones), "
+        "copies hugging faces / edges / corners, atol 2e-5 … 0.2, ghosts that are a copy across a face only under the cell with its small "
+        "components dropped or rounded to 2-3 decimals (some distance off by > 4 atol under the true lattice). "
         "Thorough adds the complete grid origin-fraction^3 x 4 poses x 11 patterns x 3 cell kinds. "
         "Non-trivial = the search reported at least one match of a pattern with >= 2 atoms AND (a planted copy straddles "
         "a cell face OR the structure contains a decoy with the pattern's geometry).")
@@ -647,8 +651,45 @@ def run(ctx, oracle_only=False, scale=1):
         tasks = rng.sample(tasks, 150 * scale)
     procs = 1 if len(tasks) <= 400 else max(1, min(8, (os.cpu_count() or 2) // 2))
     run_grid(ctx, tasks, procs)
+    # cells with SMALL components (3e-6 … 0.2 A: nearly orthorhombic, angles a fraction of a degree off 90, slightly turned),
+    # copies across their faces, ghosts that close only under the cleaned-up lattice (gen_cells_c01)
+    small_pairs = []
+    for _ in range(ctx.n(70, 600) * scale):
+        case, atol, hints = gc.small_component_case(rng)
+        if rng.random() < 0.4:
+            g.shuffle_atoms(rng, case)
+        if rng.random() < 0.25:
+            g.unwrap_atoms(rng, case)
+        style = g.call_style(rng, atol, hints)
+        style.update(g.pick_routes(rng, case))
+        inp = inp_of(case, atol, hints, rng.randrange(1 << 30), **style)
+        ctx.count("small-component cell")
+        ctx.count("small-component cell:" + case["info"]["cell"])
+        res, bad = one(inp)
+        if bad:
+            rin, rbad = faithful_input(inp, bad)
+            record(ctx, inp, res, None)
+            ctx.fail(rbad[0], rin, observed=rbad[1], required=REQUIRED, tags=tags_of(inp))
+            continue
+        record(ctx, inp, res, None)
+        if not inp["positions"]:
+            full = dict(inp, positions=True)
+            fres, fbad = one(full)
+            record(ctx, full, fres, None)
+            if fbad:
+                rin, rbad = faithful_input(full, fbad)
+                ctx.fail(rbad[0], rin, observed=rbad[1], required=REQUIRED, tags=tags_of(full))
+                continue
+            if not oracle_only:
+                ctx.compared += 1
+                if keys_of(fres) != keys_of(res):
+                    ctx.disagree("find", inp, keys_of(res), keys_of(fres), "index-only call and full call report different atom groups")
+            inp, res = full, fres
+        if "ok" in res and len(small_pairs) < ctx.n(40, 200):
+            small_pairs.append((inp, res))
     if oracle_only:
         return
+    pairs += small_pairs
     for t in rng.sample(tasks, min(len(tasks), ctx.n(40, 300))):
         inp = grid_inp(ctx.seed, t)
         res, bad = one(inp)
